@@ -35,7 +35,7 @@ def one_case(spec):
     out = {"seed": spec["seed"], "version": spec["version"], "mismatches": [], "crashes": [], "compile_errors": [],
            "nontrivial": False, "key": None, "ran": 0, "teals": {}}
     try:
-        prog = proggen.gen_prog(spec["seed"], version=spec["version"], mode=spec["mode"], size=spec.get("size", 3),
+        prog = proggen.gen_prog(spec["seed"], version=spec.get("gen_version", spec["version"]), mode=spec["mode"], size=spec.get("size", 3),
                                 features=spec.get("features"))
     except Exception:
         out["crashes"].append({"stage": "generate", "error": traceback.format_exc()[-800:]})
@@ -85,8 +85,21 @@ def one_case(spec):
                     bad, kind = f"outcome differs: expected {exp.observable()!r:.300} got {got.observable()!r:.300} ({got.detail})", "outcome"
                 elif got.verdict in ("approve", "reject") and len(got.final_stack) != 0:
                     bad, kind = f"stack not empty at exit: {got.final_stack!r:.100}", "stack"
+                elif got.verdict in ("approve", "reject"):
+                    for name, ty, slot in prog.gvars:
+                        if slot is not None and got.scratch.get(slot, 0) != exp.gvals[name]:
+                            bad, kind = (f"user-numbered slot {slot} ({name}) holds {got.scratch.get(slot, 0)!r:.60}, "
+                                         f"expected {exp.gvals[name]!r:.60}"), "slot"
                 if bad:
                     out["mismatches"].append({"options": tag, "ctx": ci, "what": bad, "kind": kind})
+    out["known_multistore"] = False
+    if any(m["kind"] == "stack" for m in out["mismatches"]):
+        try:
+            e = progsem.build(prog)
+            t0 = pt.compileTeal(e, mode, version=spec["version"], optimize=pt.OptimizeOptions(scratch_slots=False))
+            out["known_multistore"] = multistore_signature(t0)
+        except Exception:
+            pass
     if not out["mismatches"]:
         out["teals"] = {}
     else:
@@ -97,6 +110,22 @@ def one_case(spec):
                           "subs": {n: pprint.pformat((s.params, s.ret, s.locals, s.body), width=140)[:3000] for n, s in prog.subs.items()},
                           "gvars": prog.gvars}
     return out
+
+
+def multistore_signature(teal_unoptimised: str) -> bool:
+    """Trigger shape of the known optimiser defect (known_findings: O3.4): a slot whose single load directly follows
+    a store of it, while the slot is also stored elsewhere."""
+    from spec import avm
+    ops = avm.parse(teal_unoptimised).ops
+    loads, stores, adjacent = {}, {}, set()
+    for i, (m, im, _) in enumerate(ops):
+        if m == "load":
+            loads[im[0]] = loads.get(im[0], 0) + 1
+            if i > 0 and ops[i - 1][0] == "store" and ops[i - 1][1] == im:
+                adjacent.add(im[0])
+        elif m == "store":
+            stores[im[0]] = stores.get(im[0], 0) + 1
+    return any(loads.get(s) == 1 and stores.get(s, 0) >= 2 for s in adjacent)
 
 
 def sweep(specs, workers=16):
